@@ -54,6 +54,19 @@ type LongKeys struct {
 	M map[string]int64 `json:"m"`
 }
 
+// CaseTwins: Avro names are case-sensitive, and so are Go's: fields whose names differ only in case are different
+// fields, at the top level and in a nested record
+type CaseTwins struct {
+	Velocity int64  `json:"v"`
+	Volume   int64  `json:"V"`
+	ID       string
+	Id       string
+	In       struct {
+		Ab *int64 `json:"ab"`
+		AB *int64 `json:"AB"`
+	} `json:"in"`
+}
+
 type hiddenOnly struct {
 	Skip int64 `json:"-"`
 	x    int64
@@ -79,7 +92,7 @@ func customProbes() []probeCase {
 	}
 	mt := reflect.TypeOf(ManyAlloc{})
 	out = append(out, probeCase{probe: univ.Probe{Name: "many allocations of one type in one record", Expr: &univ.Expr{Op: "struct", Elem: &univ.Expr{Op: "many-allocations"}}, Tag: `json:"f"`, Type: mt}, depth: 2, whole: true, newS: statics.NewFor[ManyAlloc](),
-		custom: []reflect.Value{mkMany(40, 3, 2), mkMany(3, 40, 0), mkMany(70, 70, 35), mkMany(16, 17, 33)}})
+		custom: []reflect.Value{mkMany(40, 3, 2), mkMany(3, 40, 0), mkMany(70, 70, 35), mkMany(16, 17, 33), mkMany(1100, 1, 0)}})
 	mkZero := func(ne, nh int) reflect.Value {
 		return reflect.ValueOf(ZeroWidth{A: 7, E: make([]struct{}, ne), H: make([]hiddenOnly, nh), Z: -9})
 	}
@@ -124,6 +137,19 @@ func customProbes() []probeCase {
 	}
 	out = append(out, probeCase{probe: univ.Probe{Name: "map with very long and very many keys", Expr: &univ.Expr{Op: "struct", Elem: &univ.Expr{Op: "long-keys"}}, Tag: `json:"f"`, Type: reflect.TypeOf(LongKeys{})}, depth: 2, whole: true, newS: statics.NewFor[LongKeys](),
 		custom: []reflect.Value{mkKeys(70000), mkKeys(3)}})
+	mkTwins := func(k int64) reflect.Value {
+		v := CaseTwins{Velocity: k, Volume: -k - 1, ID: fmt.Sprintf("upper-%d", k), Id: fmt.Sprintf("lower-%d", k)}
+		x, y := k*7, k*11
+		if k%2 == 0 {
+			v.In.Ab = &x
+		}
+		if k%3 != 0 {
+			v.In.AB = &y
+		}
+		return reflect.ValueOf(v)
+	}
+	out = append(out, probeCase{probe: univ.Probe{Name: "fields whose names differ only in case", Expr: &univ.Expr{Op: "struct", Elem: &univ.Expr{Op: "case-twins"}}, Tag: `json:"f"`, Type: reflect.TypeOf(CaseTwins{})}, depth: 2, whole: true, newS: statics.NewFor[CaseTwins](),
+		custom: []reflect.Value{mkTwins(0), mkTwins(1), mkTwins(2), mkTwins(64)}})
 	// a record type with nothing to serialise: every row takes zero bytes, and must still be counted and written
 	et := reflect.TypeOf(struct{}{})
 	out = append(out, probeCase{probe: univ.Probe{Name: "record without fields (zero-byte rows)", Expr: &univ.Expr{Op: "struct", Elem: &univ.Expr{Op: "zero-byte-rows"}}, Tag: `json:"f"`, Type: et}, depth: 2, whole: true, newS: statics.NewFor[struct{}](),
@@ -919,12 +945,134 @@ func runRegistrationHistory(c *fw.Ctx) {
 	write("after RegisterSchema(RegPrice, [double,null])")
 }
 
+// judgeRegRows: the independent reader's verdict on one output of an Encoder[RegRow].
+func judgeRegRows(c *fw.Ctx, out []byte, rows []RegRow, locus, desc string) {
+	p, err := ref.ParseFile(out)
+	if err != nil {
+		c.Violation("not-a-container|"+locus, fmt.Sprintf("%v — %s", err, desc), desc)
+		return
+	}
+	hs, err := ref.ParseSchema(p.Meta["avro.schema"])
+	if err != nil {
+		c.Violation("schema-not-avro|"+locus, fmt.Sprintf("%v — %s", err, desc), desc)
+		return
+	}
+	i := 0
+	for _, b := range p.Blocks {
+		ds, derr := ref.DecodeAll(hs, b.Payload, b.Count)
+		if derr != nil {
+			c.Violation("payload-not-avro|"+locus, fmt.Sprintf("under the schema in the header (%s) a block does not decode: %v — %s", p.Meta["avro.schema"], derr, desc), desc)
+			return
+		}
+		for _, d := range ds {
+			if i < len(rows) && (len(d.L) != 2 || d.L[0].I != rows[i].A) {
+				c.Violation("wrong-datum|"+locus, fmt.Sprintf("row %d decodes as %s, written %+v — %s", i, d, rows[i], desc), desc)
+				return
+			}
+			i++
+		}
+	}
+	if i != len(rows) {
+		c.Violation("wrong-record-count|"+locus, fmt.Sprintf("%d rows, %d written — %s", i, len(rows), desc), desc)
+	}
+}
+
+type hookedBuf struct {
+	bytes.Buffer
+	n, at int
+	hook  func()
+}
+
+func (w *hookedBuf) Write(p []byte) (int, error) {
+	if w.n == w.at && w.hook != nil {
+		h := w.hook
+		w.hook = nil
+		h()
+	}
+	w.n++
+	return w.Buffer.Write(p)
+}
+
+// runTwoEncoders: two encoders of one compression codec alive at once, each with its own destination; B encodes a
+// row (and emits its block) from inside A's at-th write. Independent encoders share nothing: each output, on its
+// own, must satisfy the independent reader. Also: compression names the library does not know — if it accepts one
+// and produces a file, that file must still be one the independent reader accepts.
+func runTwoEncoders(c *fw.Ctx) {
+	rowsA := []RegRow{{A: 101, P: 1.5}, {A: 102, P: 2.5}, {A: 103, P: 3.5}}
+	rowsB := []RegRow{{A: -901, P: -1}, {A: -902, P: 1e300}, {A: -903, P: 0}}
+	for _, comp := range []string{"null", "deflate", "snappy"} {
+		for at := 0; at < 14; at++ {
+			c.Eval(1)
+			desc := fmt.Sprintf("two Encoder[RegRow] (%s, block size 0) with their own destinations; B encodes its rows one by one from inside A's write #%d, #%d, #%d", comp, at, at+1, at+2)
+			locus := "two-encoders|" + comp
+			c.Begin(locus, desc)
+			c.Nontrivial(desc)
+			c.Guard(locus, desc, desc, func() {
+				var bufB bytes.Buffer
+				bufA := &hookedBuf{at: -1}
+				a, err := avro.NewEncoderFor[RegRow](bufA, avro.Compression(comp), 0)
+				if err != nil {
+					c.Violation("encoder-error|"+locus, fmt.Sprintf("%v — %s", err, desc), desc)
+					return
+				}
+				b, err := avro.NewEncoderFor[RegRow](&bufB, avro.Compression(comp), 0)
+				if err != nil {
+					c.Violation("encoder-error|"+locus, fmt.Sprintf("%v — %s", err, desc), desc)
+					return
+				}
+				nb := 0
+				for i := range rowsA {
+					bufA.at = bufA.n + (at+i)%5 // some write of the block this Encode emits
+					bufA.hook = func() {
+						if nb < len(rowsB) {
+							b.Encode(&rowsB[nb])
+							nb++
+						}
+					}
+					if err := a.Encode(&rowsA[i]); err != nil {
+						c.Violation("encoder-error|"+locus, fmt.Sprintf("%v — %s", err, desc), desc)
+						return
+					}
+				}
+				bufA.hook = nil
+				for ; nb < len(rowsB); nb++ {
+					b.Encode(&rowsB[nb])
+				}
+				a.Flush()
+				b.Flush()
+				judgeRegRows(c, bufA.Bytes(), rowsA, locus+"|A", desc)
+				judgeRegRows(c, bufB.Bytes(), rowsB, locus+"|B", desc)
+			})
+		}
+	}
+	for _, comp := range []string{"", "NULL", "zstandard", "deflate ", "Snappy"} {
+		c.Eval(1)
+		desc := fmt.Sprintf("NewEncoderFor[RegRow] with the compression name %q, which names no codec of the specification's that the library implements", comp)
+		locus := "unknown-compression-name"
+		c.Begin(locus, desc)
+		c.Nontrivial(desc)
+		c.Guard(locus, desc, desc, func() {
+			var buf bytes.Buffer
+			e, err := avro.NewEncoderFor[RegRow](&buf, avro.Compression(comp), 0)
+			if err != nil {
+				c.Count("unknown_compression_names_refused", 1)
+				return
+			}
+			for i := range rowsA {
+				e.Encode(&rowsA[i])
+			}
+			e.Flush()
+			judgeRegRows(c, buf.Bytes(), rowsA, locus, desc+" — accepted, and the file it produced")
+		})
+	}
+}
+
 func rule(tier string, what string) string {
 	d := "depth<=1 statically (320 generated named types through the real generic NewEncoderFor[T]/Encoder[T]) and dynamically; depth 2 dynamically (reflect.StructOf; 256 expressions × 2 tags)"
 	if tier == "thorough" {
 		d = "depth<=1 statically (320 generated types through the real generic Encoder[T]) and dynamically; depth 2 (256 expressions × 4 tags) and depth 3 (1024 expressions) dynamically"
 	}
-	return "probe struct types struct{c0; F τ `tag`; c1; c2} with canary fields, τ over 16 leaves {bool,int,int16,int32,int64,float32,float64,string,[]byte,time.Time,null.Int/Bool/Float/String/Time,Rec} and wrappers {*τ,[]τ,map[string]τ,struct{X τ}}: " + d + "; per type: every value sequence of length<=2 over the full value alphabet, every length-3 sequence over 3 representatives × {null,deflate,snappy} × block size {0,1,size of two records,65536} × every subset of flush positions, reader rotating over {full reads, 1-byte reads, data+EOF, *bytes.Buffer, 16-byte *bufio.Reader, every other Read returning (0,nil)}; every length-3 sequence again with a flush after each record where the writer refuses the first write of one of the flushes once (nothing consumed) and the flush is retried; 66 multi-field record types (every arrangement of six *int64 / *string fields, and two mixed ones with slices, maps and nested pointers) with 4 value patterns in sequences of <=3 (allocation order inside one record); a record of 130 fields, a map with a 70 000-byte key among 300 others, a record type that takes 40–70 pointed-to values of one type from its bank, and one with arrays of up to 100 zero-width items (records without serialisable fields); for the string and []byte leaves also records of 66–70 kB a 400-record block of >64 KiB (larger than the reader's read-ahead chunk) and a block of 9000 identical records (best-case compression ratio) under every codec; the file is read into T, into a fresh *T, into T with every bank closed as soon as its record is copied, and into a caller-owned *T already used by an earlier read that its callback abandoned at the last record; every record is compared twice: as deep-copied inside the callback, and as a plain struct copy kept by the caller until ReadFile has returned (banks left open); " + what + "; plus FileWriter used directly for 1–3 files at once (headers through WriteHeader or AppendHeader in every combination, 0–4 single-row blocks dealt round-robin), each file parsed on its own; encoders for one row type made before and after schema registrations that change its schema (rows must match the header each time); a case is one (type, sequence, configuration); non-trivial = encoding succeeded and the output reached the oracle"
+	return "probe struct types struct{c0; F τ `tag`; c1; c2} with canary fields, τ over 16 leaves {bool,int,int16,int32,int64,float32,float64,string,[]byte,time.Time,null.Int/Bool/Float/String/Time,Rec} and wrappers {*τ,[]τ,map[string]τ,struct{X τ}}: " + d + "; per type: every value sequence of length<=2 over the full value alphabet, every length-3 sequence over 3 representatives × {null,deflate,snappy} × block size {0,1,size of two records,65536} × every subset of flush positions, reader rotating over {full reads, 1-byte reads, data+EOF, *bytes.Buffer, 16-byte *bufio.Reader, every other Read returning (0,nil)}; every length-3 sequence again with a flush after each record where the writer refuses the first write of one of the flushes once (nothing consumed) and the flush is retried; 66 multi-field record types (every arrangement of six *int64 / *string fields, and two mixed ones with slices, maps and nested pointers) with 4 value patterns in sequences of <=3 (allocation order inside one record); a record of 130 fields, a map with a 70 000-byte key among 300 others, a record type that takes 40–70 pointed-to values of one type from its bank, and one with arrays of up to 100 zero-width items (records without serialisable fields); a record with fields whose names differ only in case (top level and nested); one record taking 1100 allocations of one type from its bank; for the string and []byte leaves also records of 66–70 kB a 400-record block of >64 KiB (larger than the reader's read-ahead chunk) and a block of 9000 identical records (best-case compression ratio) under every codec; the file is read into T, into a fresh *T, into T with every bank closed as soon as its record is copied, and into a caller-owned *T already used by an earlier read that its callback abandoned at the last record; every record is compared twice: as deep-copied inside the callback, and as a plain struct copy kept by the caller until ReadFile has returned (banks left open); " + what + "; plus FileWriter used directly for 1–3 files at once (headers through WriteHeader or AppendHeader in every combination, 0–4 single-row blocks dealt round-robin), each file parsed on its own; encoders for one row type made before and after schema registrations that change its schema (rows must match the header each time); two encoders of one codec alive at once, B emitting its blocks from inside A's writes, each output judged on its own; compression names that name no implemented codec (accepted ⇒ the file must still satisfy the reader); a case is one (type, sequence, configuration); non-trivial = encoding succeeded and the output reached the oracle"
 }
 
 func register(id string, w which, level, what string, assumptions []string) {
@@ -939,6 +1087,7 @@ func register(id string, w which, level, what string, assumptions []string) {
 			if idx == len(probes(c.Tier)) {
 				runShards(c, w)
 				runRegistrationHistory(c)
+				runTwoEncoders(c)
 				return
 			}
 			runProbe(c, w, idx, probes(c.Tier)[idx])
